@@ -217,9 +217,9 @@ def plant_twice(rng, arch, b):
 
 def gen_case(rng):
     arch = rng.choice(asmk.ARCHES)
-    depth = rng.choice([0, 0, 1, 1, 2])                  # how deep the faulty file is included
-    paths = ["/w/main.asm", "/w/a.inc", "/w/sub/b.inc"][:depth + 1]
-    names = [None, "a.inc", "sub/b.inc"]
+    depth = rng.choice([0, 0, 1, 1, 2, 2, 3, 4])         # how deep the faulty file is included (chains of three and four frames have an order a chain of two cannot show)
+    paths = ["/w/main.asm", "/w/a.inc", "/w/sub/b.inc", "/w/sub/deep/c.inc", "/w/sub/deep/d.inc"][:depth + 1]
+    names = [None, "a.inc", "sub/b.inc", "deep/c.inc", "d.inc"]
     # "twice": the root file includes its include file two times, and the fault only arises the second time round (the
     # chain of including locations must name the second @include, not the first)
     twice = depth >= 1 and rng.random() < 0.2
@@ -412,7 +412,7 @@ def trace_leg(ck, model, cases, res):
             break
 
 def run(ck):
-    ck.rule = ("multi-file programs (root, file included from it, file included from that; sub-directory) over the three CPUs: "
+    ck.rule = ("multi-file programs (root and up to four nested included files in sub-directories) over the three CPUs: "
                "filler of blank / whitespace-only / comment lines (with wide characters), CRLF line ends, continued lines (with "
                "comments after the backslash), strings continued over a line break, labels, instructions; ONE fault planted at a "
                "position the driver computes by counting characters: unknown directive, unrecognised character, undefined symbol "
@@ -466,7 +466,7 @@ def run(ck):
                     want = c["chain"]
                     if len(chain) != len(want) or any(g[0] != w[0] or g[1] != w[1] or g[2] not in w[2] for g, w in zip(chain, want)):
                         bad = "include chain %s, expected %s" % (chain, [(w[0], w[1], w[2]) for w in want])
-        if len(ck.samples) < 3 and a.kind == "ERR" and c["depth"] == 2 and not bad:
+        if len(ck.samples) < 3 and a.kind == "ERR" and c["depth"] >= 2 and not bad:
             ck.sample({"files": c["files"], "fault": c["kind"], "expected_position": c["accept"], "diagnostic": a.msg})
         if bad:
             nviol += 1
